@@ -53,7 +53,7 @@ func TestMain(m *testing.M) {
 			"MarkPrefixScanned returns nothing to compare: if the tx commits, the (key, writer tx) tuples of the range at state(id-1) must equal those of state(t) for some t not later than the last precommitted tx observed right after the call",
 			"a step (commit, read) that does not return within 120 s is reported as a failure (all operations take milliseconds)",
 			"known findings (pinned probes, excluded while they fire, counted): K05a a reader pass is continued until it returns a committed entry or the end, so that no pass ends with own writes; " +
-				"K05b a GetWithPrefix answered by an own write that hides a smaller committed key is not failed; K05c in two-index cases a stale read on the index that is not the first one the tx touched is not failed when the tx wrote into the first index and nothing committed during its life",
+				"K05b a GetWithPrefix answered by an own write that hides a smaller committed key is not failed; K05c (fixed in /repo by 5150a30, its probe is kept as a regression: checkPreconditions returned at the first up-to-date snapshot without validating the snapshots of other indexes) is no longer excluded",
 			"not implemented from the design: fsim delays on the indexer's reads (the recorder hooks writes only; lag comes from the bulk wait and from reused dumped roots), mapped indexes, UnsafeMVCC",
 		},
 		Probes: []vk.Probe{
